@@ -248,9 +248,28 @@ def r2_model_reader(ctx, res):
                     res.find(key, lmf.relpath, f'{cls}.{k} is typed {t} but the loader has no conversion for it')
 
 
+def _loop_constants(f, name):
+    """string constants a name ranges over when it is the variable of `for name in ('a', 'b', ...)`"""
+    out = []
+    for n in walk_no_nested(f.node):
+        if isinstance(n, (ast.For, ast.comprehension)) and isinstance(n.target, ast.Name) and n.target.id == name \
+                and isinstance(n.iter, (ast.Tuple, ast.List)) and n.iter.elts and all(isinstance(e, ast.Constant) and isinstance(e.value, str) for e in n.iter.elts):
+            out.extend(e.value for e in n.iter.elts)
+    return out
+
+
 def _keys_read(f):
     out = {}
     for n in walk_no_nested(f.node):
+        # keys read through a loop over a tuple of constant keys:  for key in ('url', 'citation'): ... x[key] / x.get(key)
+        kn = None
+        if isinstance(n, ast.Subscript) and isinstance(n.slice, ast.Name) and isinstance(n.ctx, ast.Load):
+            kn = n.slice.id
+        elif isinstance(n, ast.Call) and isinstance(n.func, ast.Attribute) and n.func.attr == 'get' and n.args and isinstance(n.args[0], ast.Name):
+            kn = n.args[0].id
+        if kn is not None:
+            for k in _loop_constants(f, kn):
+                out.setdefault(k, []).append(n)
         if isinstance(n, ast.Subscript) and isinstance(n.slice, ast.Constant) and isinstance(n.slice.value, str) and isinstance(n.ctx, ast.Load):
             out.setdefault(n.slice.value, []).append(n)
         if isinstance(n, ast.Call) and isinstance(n.func, ast.Attribute) and n.func.attr == 'get' and n.args \
@@ -388,12 +407,21 @@ def r5_escaping(ctx, res):
 def _safe_print_arg(ctx, f, arg, depth=0):
     if arg is None:
         return 'empty'
+    if _is_const_lookup(arg):
+        return 'module constant'
     if isinstance(arg, ast.Constant):
         return 'constant'
     if isinstance(arg, ast.Call):
         fn = norm(arg.func)
         if fn == '_tostring':
             return 'ElementTree serialisation'
+        if isinstance(arg.func, ast.Attribute) and arg.func.attr == 'format' and isinstance(arg.func.value, ast.Constant) and depth < 4:
+            kinds = [_safe_print_arg(ctx, f, a, depth + 1) for a in list(arg.args) + [k.value for k in arg.keywords]]
+            if kinds and all(kinds):
+                return 'format of ' + ', '.join(sorted(set(kinds)))
+            return None if kinds else 'constant'
+        if _is_const_lookup(arg):
+            return 'module constant'
         if fn.endswith('.decode') and isinstance(arg.func.value, ast.Name) and arg.func.value.id.startswith('_'):
             return 'module constant'
     if isinstance(arg, ast.Name) and depth < 4:
